@@ -19,7 +19,18 @@ pub fn probe_snapshot() -> Vec<u64> {
     PROBES.iter().map(|p| p.load(Ordering::Relaxed)).collect()
 }
 
-pub fn fail(name: &str, msg: &str) -> ! {
+static DISABLED: std::sync::Mutex<Vec<String>> = std::sync::Mutex::new(Vec::new());
+
+/// Switch a monitor off for this process (used to observe what a detected invariant
+/// violation leads to downstream, and by negative controls).
+pub fn disable(name: &str) {
+    DISABLED.lock().unwrap().push(name.to_string());
+}
+
+pub fn fail(name: &str, msg: &str) {
+    if DISABLED.lock().map(|d| d.iter().any(|n| n == name)).unwrap_or(false) {
+        return;
+    }
     panic!("VERIF-MONITOR {}: {}", name, msg);
 }
 
@@ -39,4 +50,16 @@ pub fn stw_leave() {
 
 pub fn stw_active() -> bool {
     STW_OWNER.load(Ordering::Relaxed) != usize::MAX
+}
+
+
+/// True while the concurrent sweeper of the generational collector is running.
+pub static SWEEP_ACTIVE: std::sync::atomic::AtomicBool = std::sync::atomic::AtomicBool::new(false);
+pub static SWEEPS: AtomicU64 = AtomicU64::new(0);
+
+pub fn sweep_active(on: bool) {
+    SWEEP_ACTIVE.store(on, Ordering::Relaxed);
+    if on {
+        SWEEPS.fetch_add(1, Ordering::Relaxed);
+    }
 }
